@@ -103,7 +103,7 @@ func C05(c *run.Check) {
 	workers := make([]*vworker, run.Workers())
 	n := len(vals)
 	run.ParallelW(n*n, func(w, i int) {
-		if !triage && c.Violations() > 0 {
+		if (!triage && c.Violations() > 0) || c.TimeUp() {
 			return
 		}
 		if workers[w] == nil {
